@@ -55,3 +55,37 @@ Fixpoint decls_bad (N : Num) (s : state (T N)) (i : Z) (os : list (ureal (T N)))
 Definition run_case17 (N : Num) (s : state (T N)) (ncx : ncxt) (decls : list (ureal (T N))) (cs : list (tcall N)) : Z :=
   let d := decls_bad N s 0%Z decls in
   if (d =? -1)%Z then run_tcalls N s ncx 0%Z cs else (90000000 + d)%Z.
+
+(* reporting.u_component(y, x) as the user calls it (x the influence as held: an uncertain real,
+   or the uncertain complex number itself), compared with Budget.u_component_any:
+   80000000 + index of the first differing call *)
+Definition ucall (N : Num) := (yval N * infl N * res (list (T N)))%type.
+
+Fixpoint vals_eqb (N : Num) (a b : list (T N)) : bool :=
+  match a, b with
+  | [], [] => true
+  | x :: a', y :: b' => same N x y && vals_eqb N a' b'
+  | _, _ => false
+  end.
+
+Definition ucall_ok (N : Num) (s : state (T N)) (c : ucall N) : bool :=
+  let '(y, i, expected) := c in
+  match u_component_any N s y i, expected with
+  | Ok a, Ok b => vals_eqb N a b
+  | Err _, Err OtherExn => true          (* raised inside repr() of the error message *)
+  | Err e, Err e' => exn_eqb e e'
+  | _, _ => false
+  end.
+
+Fixpoint ucalls_bad (N : Num) (s : state (T N)) (i : Z) (cs : list (ucall N)) : Z :=
+  match cs with
+  | [] => (-1)%Z
+  | c :: cs' => if ucall_ok N s c then ucalls_bad N s (i + 1)%Z cs' else i
+  end.
+
+Definition run_case17u (N : Num) (s : state (T N)) (ncx : ncxt) (decls : list (ureal (T N)))
+           (us : list (ucall N)) (cs : list (tcall N)) : Z :=
+  let d := decls_bad N s 0%Z decls in
+  if negb (d =? -1)%Z then (90000000 + d)%Z
+  else let u := ucalls_bad N s 0%Z us in
+       if negb (u =? -1)%Z then (80000000 + u)%Z else run_tcalls N s ncx 0%Z cs.
